@@ -107,7 +107,9 @@ func (m *Machine) verifyFunction(key string, fc *FuncContract, opts verifyOpts) 
 				rep.Unsup = u.msg
 				return
 			}
-			panic(r)
+			// an internal error of the engine on this function: the function is undecided, not the whole run broken
+			rep.Unsup = fmt.Sprintf("engine error: %v", r)
+			return
 		}
 	}()
 	m.cur = &runCtx{fn: fn, fc: fc, key: key, params: map[string]Value{}, ptypes: map[string]types.Type{}, noSafety: !opts.safety, allocCheck: opts.allocCheck, freshTerms: map[string]bool{}}
@@ -120,6 +122,13 @@ func (m *Machine) verifyFunction(key string, fc *FuncContract, opts verifyOpts) 
 			m.sliceWF(st, sl)
 			if ss := seqSortFor(sl.Obj.Elem); ss != SObj {
 				m.objFull[sl.Obj] = m.packTerm(st, sl, ss)
+			}
+		}
+		if sv, ok := v.(*StructV); ok {
+			for _, f := range sv.F {
+				if fsl, ok := f.(*SliceV); ok {
+					m.sliceWF(st, fsl)
+				}
 			}
 		}
 		fr.regs[p] = v
